@@ -848,6 +848,12 @@ func (as *AbacoSource) distributePackets(allpackets []*packets.Packet, now time.
 
 // Sample determines key data facts by sampling some initial data.
 func (as *AbacoSource) Sample() error {
+	if as.unwrapOpts.Unwrap && as.unwrapOpts.ResetAfter <= 0 {
+		// Configure accepts this (a client may leave ResetAfter out), but NewPhaseUnwrapper panics on it:
+		// fail the Start with an error instead of ending the server.
+		as.closeDevices()
+		return fmt.Errorf("cannot unwrap phase with ResetAfter=%d, expect a positive number of samples", as.unwrapOpts.ResetAfter)
+	}
 	err := as.sampleProducers()
 	if err == nil && as.nchan <= 0 {
 		err = fmt.Errorf("no Abaco data packets were seen while sampling")
